@@ -28,7 +28,8 @@ CHECKS = {
                      "and Device.State() compared with an integer reference model after every step.",
                 note="Bounded to <= 100 octave and <= 110 semitone actions per run (the 8-bit device state wraps at the 128th; recorded in DESIGN 13a as known and not repaired). "
                      "Hats that trigger actions are mixed with action keys; never generated, because the statement speaks of both KEYS of a pair: a key and a hat holding the same action "
-                     "or the two halves of one pair, a hat deflected while a complete key pair is held. An action may have a second key."),
+                     "or the two halves of one pair, a hat deflected while a complete key pair is held. An action may have a second key. In a share of the hat runs one axis is a stick: one deflection is one press, "
+                     "however many positions beyond half travel it passes through."),
     "C05": dict(level="exploration", ref="DESIGN.md §4 C05",
                 text="A byte-level well-formedness monitor on every message of seeded runs over corner configurations that the real parser accepts "
                      "(rejected ones are counted as skipped); the same monitor runs inside every other W1 check.",
@@ -38,7 +39,9 @@ CHECKS = {
                      "shuffled order against an exact-rational transfer function: +-1 step, exact end stops and rest values, monotonicity, duplicate suppression. "
                      "Neither schedule nor fault matters to this property; it is decided by the same event-stream-vs-reference loop.",
                 note="Positions within 1e-9 of a deadzone boundary are not asserted (float vs exact arithmetic); deadzones outside [0,1] are outside the model; axes whose reported minimum is "
-                     "above 0 are not generated (DESIGN 13a). The first position of an axis is transmitted whatever it is; an axis without known range transmits nothing."),
+                     "above 0 are not generated (DESIGN 13a). The first position of an axis is transmitted whatever it is; an axis without known range transmits nothing. A position that repeats the "
+                     "previous one need not be sent again only while it would go where the previous one went: after a channel or mapping action it is judged by what the receiver holds at the "
+                     "destination that is current then."),
     "C07": dict(level="exploration", ref="DESIGN.md §4 C07",
                 text="Seeded position sequences on 1-3 bidirectional axes (signed and centred-unsigned, offsets, jumps across the centre, exact centre) interleaved with "
                      "cc_learning; receiver-side invariants after every processed event.",
